@@ -11,6 +11,7 @@ from sfa.model import call_name
 from sfa.model import kwarg
 from sfa.model import norm
 from sfa.model import walk_local
+from sfa import roles
 from sfa.report import Ctx
 from sfa.rules import pair
 
@@ -103,35 +104,33 @@ def assign_keys(ctx: Ctx) -> None:
     ctx.rule(R, 'FrameAssignILoc.__call__ sorts the column key with key_to_ascending_key (TypeBlocks._assign_from_iloc_* require '
              'ascending column keys) and uses that same normalised key both to align a labelled value and to assign it', floor=4)
     f = ctx.prog.method('FrameAssignILoc', '__call__', inherited=False)
-    defs = [a for a in walk_local(f.node) if isinstance(a, ast.Assign) and norm(a.targets[0]) == 'key']
-    ctx.require(len(defs) == 2, 'FrameAssignILoc.__call__ normalises its key on two branches')
-    for a in defs:
-        v = a.value
-        if isinstance(v, ast.Tuple) and len(v.elts) == 2:
-            second = v.elts[1]
-            first_ok = norm(v.elts[0]) in ('self.key[0]', 'self.key')
-            if isinstance(second, ast.Constant) and second.value is None:
-                good = first_ok
-                what = 'row-only key'
-            else:
-                good = first_ok and isinstance(second, ast.Call) and call_name(second) == 'key_to_ascending_key' \
-                    and second.args and norm(second.args[0]) == 'self.key[1]'
-                what = 'column key through key_to_ascending_key'
-            (ctx.ok if good else ctx.bad)(R, f, a, what if good else f'key is built as `{norm(v)[:80]}`: the column key reaches block assignment unsorted '
-                                          '(values land in the wrong columns for a descending / unordered key)', key=f'key-def:{what if good else norm(second)[:30]}')
-        else:
-            ctx.bad(R, f, a, f'key = {norm(v)[:60]}', key='key-def:other')
+    ex = roles.Expander(f.node)
+    sorted_key = '(self.key[0], key_to_ascending_key(self.key[1], self.container.shape[1]))'
+    row_only = '(self.key, None)'
     uses = [c for c in walk_local(f.node) if isinstance(c, ast.Call) and (call_name(c).endswith('extract_iloc_assign_by_unit')
             or call_name(c).endswith('extract_iloc_assign_by_blocks') or call_name(c).endswith('_reindex_other_like_iloc'))]
     ctx.require(len(uses) >= 5, 'FrameAssignILoc.__call__ aligns and assigns')
-    for c in uses:
+    for n_use, c in enumerate(uses):
         arg = c.args[1] if call_name(c).endswith('_reindex_other_like_iloc') and len(c.args) > 1 else (c.args[0] if c.args else None)
-        good = norm(arg) == 'key'
-        (ctx.ok if good else ctx.bad)(R, f, c, f'{call_name(c).split(".")[-1]} uses the normalised key' if good else
-                                      f'{call_name(c).split(".")[-1]} is given `{norm(arg)}` instead of the normalised key', key=f'key-use:{call_name(c).split(".")[-1]}@{c.lineno - f.node.lineno}')
-    # the aligned value is what is assigned
-    for a in [x for x in walk_local(f.node) if isinstance(x, ast.Assign) and norm(x.targets[0]) == 'blocks']:
-        c = a.value
-        if isinstance(c, ast.Call) and len(c.args) >= 2:
-            good = norm(c.args[1]) == 'assigned'
-            (ctx.ok if good else ctx.bad)(R, f, a, 'the aligned value is what is assigned' if good else f'assigns `{norm(c.args[1])}`', key=f'assigned:{a.lineno - f.node.lineno}')
+        got = ex.expand(arg)
+        good = got <= {sorted_key, row_only} and sorted_key in got
+        short = call_name(c).split('.')[-1]
+        (ctx.ok if good else ctx.bad)(R, f, c, f'{short} uses the key whose column part went through key_to_ascending_key' if good else
+                                      f'{short} is given `{sorted(got)}`: the column key reaches block assignment unsorted (values land in the wrong columns for a '
+                                      'descending / unordered key)', key=f'key-use:{short}#{n_use}')
+    # the aligned value is what is assigned: the second argument of each block assignment is the local bound by the statement just before it
+    n_as = 0
+    for holder in ast.walk(f.node):
+        for field in ('body', 'orelse'):
+            stmts = getattr(holder, field, None)
+            if not isinstance(stmts, list):
+                continue
+            for i, a in enumerate(stmts):
+                if isinstance(a, ast.Assign) and isinstance(a.value, ast.Call) and call_name(a.value).split('.')[-1].startswith('extract_iloc_assign_by') and len(a.value.args) >= 2:
+                    n_as += 1
+                    second = a.value.args[1]
+                    prev = stmts[i - 1] if i else None
+                    good = isinstance(second, ast.Name) and prev is not None and second.id in roles.targets_of(prev)
+                    (ctx.ok if good else ctx.bad)(R, f, a, 'the value aligned (or taken) just before is what is assigned' if good else f'assigns `{norm(second)}`, not the value prepared for this branch',
+                                                  key=f'assigned#{n_as}')
+    ctx.require(n_as >= 3, 'block assignments in FrameAssignILoc.__call__')
